@@ -91,6 +91,12 @@ class P(Prop):
 
     def oracle(self, m, text, mut):
         case = {"text": text, "name": m.name}
+        if self.rng.random() < 0.3:
+            # call history: an earlier result of the very same call, edited in place by its owner
+            o0, c0 = call(cg.io.verilog_to_circuit, text, m.name, False, list(m.bbs) or list(vgen.FLOPS))
+            if o0 == "ok":
+                gen.poison_result(self.rng, c0)
+                self.stats.bump("history:earlier-result-edited")
         with synthetic_names() as made:
             o, c = call(cg.io.verilog_to_circuit, text, m.name, False, list(m.bbs) or list(vgen.FLOPS))
         self.made = set(made)
